@@ -10,7 +10,10 @@
 (*                                      c16 [has, exp, cur, solo, unit]: the projected result in this batch (cur),    *)
 (*                                          the same request computed without the rest of the batch (solo), the      *)
 (*                                          verdict MC_Planning predicted for this position (exp, "" = none)         *)
+(*                                          ref / hasRef: the same entry in ANOTHER ORDERING of the same batch        *)
+(*                                          (synchronization vectors untouched)                                      *)
 (*   netB / netA  network_to_json before / after, one integer per element                                            *)
+(*   simB / simA  the process-wide simulation parameters (SimParams) before / after                                  *)
 (* Monitor-shaped: step k <= Len(ent) judges entry k, the last step judges the batch; `viol` accumulates             *)
 (* <<step, clause>>, the verdict line is printed when everything has been consumed.                                  *)
 EXTENDS PlanningOps, Json, IOUtils
@@ -33,6 +36,9 @@ C16Viol(tr, k) ==
     IF ~(tr.j16 /\ c.has) THEN {} ELSE
        (IF c.solo.found /\ SameCore(c.cur, c.solo) THEN {} ELSE {"Independent"})
        \cup (IF c.exp = "" \/ Status(c.cur) = c.exp THEN {} ELSE {"ModelAgrees"})
+       \* both orderings must equal the result computed alone, hence each other - stated directly because a member
+       \* of a synchronization vector cannot be computed alone
+       \cup (IF ~c.hasRef \/ (c.ref.found /\ SameCore(c.cur, c.ref)) THEN {} ELSE {"OrderIndependent"})
        \cup (IF c.solo.found /\ Differs(x) /\
                 ~\E j \in 1..(k - 1) : /\ tr.ent[j].o.reason = ""
                                        /\ SeqRange(tr.ent[j].o.oms) \cap SeqRange(x.o.oms) # {}
@@ -48,6 +54,7 @@ C19Viol(tr, k) ==
 
 BatchViol(tr) ==
     (IF tr.netB = tr.netA THEN {} ELSE {"NetworkFrozen"})
+    \cup (IF tr.simB = tr.simA THEN {} ELSE {"SimParamsFrozen"})
     \cup (IF ~tr.j19 \/ OneEntryPerRequest([k \in 1..Len(tr.inputs) |-> tr.inputs[k].id],
                                             [k \in 1..Len(tr.ent) |-> tr.ent[k].e.ids])
           THEN {} ELSE {"OneEntryPerRequest"})
